@@ -1,6 +1,6 @@
 (* C09 - decoding of the cases written by harness/p_c09.py and judges (evaluated by vm_compute). Definitions only. *)
 From Coq Require Import ZArith QArith List Bool String Ascii.
-Require Import WV.model.C09Line.
+Require Import WV.model.C09Line WV.model.C09Spec.
 Import ListNotations.
 Open Scope Z_scope.
 
@@ -35,6 +35,11 @@ Definition style_of (s : nat * nat * bool * bool * Q) : style :=
 Definition sfl_judge0 (c : sfl_case) : nat :=
   let '(s, t, mw, ils, mini, impl) := c in
   if outcome_eqb (sfl_model (style_of s) (tx t) mw ils mini) impl then 0%nat else 1%nat.
+
+(* bit 0: model differs from the implementation; bits 1-4: spec_mask of the implementation's outcome *)
+Definition sfl_judge (c : sfl_case) : nat :=
+  let '(s, t, mw, ils, mini, impl) := c in
+  (sfl_judge0 c + spec_mask (style_of s) (tx t) mw ils mini impl)%nat.
 
 (* hypothesis G against the raw library: (overflow-wrap normal?, font size, text (already truncated), width,
    wrap-char, (chars, resume, width), attrs as a string of 0/1) *)
